@@ -303,15 +303,30 @@ def _opaque_scalar_bool(a, label):
 
 
 def equal(a, b):
+    """torch.equal: same shape and all entries equal.  True branch: the universal fact is registered
+    (instantiate with sym.instantiate_universals at rank = a.dim()); False branch: a skolem witness differs."""
     if a.dim() != b.dim():
         return False
     for p, q in zip(a.shape, b.shape):
         if not O.dim_eq(p, q):
             return False
-    if a.storage is b.storage and a._fwd is b._fwd:
+    c = sym.ctx()
+    ea, eb = a.elem_fn(), b.elem_fn()
+    if ea is None or eb is None:
+        return c.fork("equal")
+    if a.storage is b.storage and a._fwd is b._fwd and a.dtype.kind == "f":
         # torch.equal(x, x) is False iff x contains NaN
-        return sym.ctx().fork(f"equal_self_no_nan@{a.storage.id}")
-    return sym.ctx().fork("equal")
+        return c.fork(f"equal_self_no_nan@{a.storage.id}")
+    w = tuple(z3.Int(c.fresh_name(f"w!equal{j}")) for j in range(a.dim()))
+    differs = z3.And(a.in_bounds(w), ea(w) != eb(w)) if a.dim() else ea(()) != eb(())
+    if c.feasible(differs) is False:
+        return True
+    if c.fork("equal"):
+        shape = a.shape
+        c.universals.append((len(shape), lambda idx: z3.Implies(z3.And(*[z3.And(O.ix(i) >= 0, O.ix(i) < O.ix(s_)) for i, s_ in zip(idx, shape)]) if shape else z3.BoolVal(True), ea(tuple(idx)) == eb(tuple(idx)))))
+        return True
+    c.assume(differs)
+    return False
 
 
 def numel(a):
